@@ -28,10 +28,11 @@ from harness import core
 from harness.core import qlit, zlit, boollit, listlit, optlit
 from harness.props import c01_gen as G
 from harness.props import c01_rec as R
+from translate import pipeline as tr_pipeline
 
 ID = 'C01'
 PROPS = 'Props/C01.v'
-TRANSLATORS = []
+TRANSLATORS = [('Gen/PipelineLits.v', tr_pipeline.generate)]
 MIRRORED = [('mitxgraders/baseclasses.py', 'AbstractGrader.__call__'),
             ('mitxgraders/baseclasses.py', 'AbstractGrader.apply_attempt_based_credit'),
             ('mitxgraders/baseclasses.py', 'AbstractGrader.grade_decimal_to_ok'),
@@ -69,45 +70,72 @@ MIRRORED = [('mitxgraders/baseclasses.py', 'AbstractGrader.__call__'),
 FINDING_ID = 'zero-credit-answer-keeps-partial-ok'
 
 
-def consolidate_recomputes_ok():
-    """Which version of MathMixin.consolidate_results is in the tree under test: does the branch that returns a comparer
-    result re-derive result['ok'] from result['grade_decimal'] first?  (False for the code as found: finding C01.)
-    Read off the source with `ast` on every run; the flag becomes the model's o_recompute, so the model follows a repaired
-    /repo.  Anything else about the function is covered by the correspondence, not by this flag."""
+def _is_ok_recompute(st):
+    """`result['ok'] = <...>.grade_decimal_to_ok(result['grade_decimal'])`"""
+    import ast
+    if not (isinstance(st, ast.Assign) and len(st.targets) == 1):
+        return False
+    t, v = st.targets[0], st.value
+    ok_target = (isinstance(t, ast.Subscript) and isinstance(t.value, ast.Name) and t.value.id == 'result'
+                 and isinstance(t.slice, ast.Constant) and t.slice.value == 'ok')
+    if not ok_target or not isinstance(v, ast.Call) or len(v.args) != 1:
+        return False
+    f, a = v.func, v.args[0]
+    fname = f.attr if isinstance(f, ast.Attribute) else (f.id if isinstance(f, ast.Name) else None)
+    arg_ok = (isinstance(a, ast.Subscript) and isinstance(a.value, ast.Name) and a.value.id == 'result'
+              and isinstance(a.slice, ast.Constant) and a.slice.value == 'grade_decimal')
+    return fname == 'grade_decimal_to_ok' and arg_ok
+
+
+def _is_ok_not_true(test):
+    """`result['ok'] is not True`  /  `result['ok'] != True`"""
+    import ast
+    if not (isinstance(test, ast.Compare) and len(test.ops) == 1 and isinstance(test.ops[0], (ast.IsNot, ast.NotEq))):
+        return False
+    l, r = test.left, test.comparators[0]
+    return (isinstance(l, ast.Subscript) and isinstance(l.value, ast.Name) and l.value.id == 'result'
+            and isinstance(l.slice, ast.Constant) and l.slice.value == 'ok'
+            and isinstance(r, ast.Constant) and r.value is True)
+
+
+def scaled_results_recompute_ok():
+    """Which version of the comparer-result scaling is in the tree under test (read off the source with `ast` on every
+    run; the flag becomes the model's o_recompute, so the model follows the repaired /repo):
+      code as found -> False:   for result in results: result['grade_decimal'] *= answer['grade_decimal']
+      repaired      -> True :   ... followed, in the same loop, by
+                                if result['ok'] is not True: result['ok'] = self.grade_decimal_to_ok(result['grade_decimal'])
+                                (FormulaGrader.raw_check), or the equivalent re-derivation just before consolidate_results
+                                returns a comparer result.
+    Everything else about these functions is covered by the correspondence, not by this flag."""
     import ast
     try:
-        tree = ast.parse(core.repo_source('mitxgraders/helpers/math_helpers.py'))
+        fg = ast.parse(core.repo_source('mitxgraders/formulagrader/formulagrader.py'))
+        mh = ast.parse(core.repo_source('mitxgraders/helpers/math_helpers.py'))
     except (OSError, SyntaxError):
         return False
-    fn = core.find_def(tree, 'MathMixin.consolidate_results')
-    if fn is None:
-        return False
-
-    def is_recompute(st):
-        if not (isinstance(st, ast.Assign) and len(st.targets) == 1):
-            return False
-        t, v = st.targets[0], st.value
-        ok_target = (isinstance(t, ast.Subscript) and isinstance(t.value, ast.Name) and t.value.id == 'result'
-                     and isinstance(t.slice, ast.Constant) and t.slice.value == 'ok')
-        if not ok_target or not isinstance(v, ast.Call) or len(v.args) != 1:
-            return False
-        f, a = v.func, v.args[0]
-        fname = f.attr if isinstance(f, ast.Attribute) else (f.id if isinstance(f, ast.Name) else None)
-        arg_ok = (isinstance(a, ast.Subscript) and isinstance(a.value, ast.Name) and a.value.id == 'result'
-                  and isinstance(a.slice, ast.Constant) and a.slice.value == 'grade_decimal')
-        return fname == 'grade_decimal_to_ok' and arg_ok
-
-    for node in ast.walk(fn):
-        if isinstance(node, ast.If):
-            body = node.body
-            for i, st in enumerate(body):
-                if isinstance(st, ast.Return) and isinstance(st.value, ast.Name) and st.value.id == 'result':
-                    if any(is_recompute(x) for x in body[:i]):
+    fn = core.find_def(fg, 'FormulaGrader.raw_check')
+    if fn is not None:
+        for node in ast.walk(fn):
+            if isinstance(node, ast.For) and isinstance(node.target, ast.Name) and node.target.id == 'result':
+                scaled = False
+                for st in node.body:
+                    if isinstance(st, ast.AugAssign) and isinstance(st.op, ast.Mult):
+                        scaled = True
+                    elif scaled and isinstance(st, ast.If) and _is_ok_not_true(st.test) and not st.orelse \
+                            and any(_is_ok_recompute(x) for x in st.body):
                         return True
+    fn = core.find_def(mh, 'MathMixin.consolidate_results')
+    if fn is not None:
+        for node in ast.walk(fn):
+            if isinstance(node, ast.If):
+                for i, st in enumerate(node.body):
+                    if isinstance(st, ast.Return) and isinstance(st.value, ast.Name) and st.value.id == 'result':
+                        if any(_is_ok_recompute(x) for x in node.body[:i]):
+                            return True
     return False
 
 
-RECOMPUTE = consolidate_recomputes_ok()
+RECOMPUTE = scaled_results_recompute_ok()
 # the refuted clause stands exactly as long as the code under test is the unrepaired version
 REFUTED = [] if RECOMPUTE else ['C01_formula_leaf_refuted', 'C01_call_refuted']
 
@@ -566,7 +594,7 @@ def run(ctx):
         counts = [(k, 3 * n) for k, n in QUICK]
     else:
         counts = QUICK
-    res.distribution_extra = {'consolidate_results_recomputes_ok': RECOMPUTE}
+    res.distribution_extra = {'scaled_comparer_results_recompute_ok': RECOMPUTE}
     cases = [dict(c, kind='corpus') for c in CORPUS] + gen_cases(rng, counts)
     terms, metas = [], []
     for i, case in enumerate(cases):
